@@ -52,7 +52,7 @@ P = {
          "running (also after a failed start), delivery iff held; the same for any number of bridge objects in one process, with "
          "non-interference between objects (start, failed start, stop of another object change nothing); per run every action sequence of length <= 3 on real UDP sockets with "
          "probe binds.", "5 C17", "partial: deferred socket release timing is asyncio's and only exercised"),
- "C18": ("proof", "Theorem over all action sequences of the client lifecycle model; per run every sequence of length <= 3 for both API "
+ "C18": ("proof", "Theorems over all action sequences of the client lifecycle model (C18_lifecycle; C18_connected_exactly_between: the model refines the property's own reading of a history - connected exactly after a successful connect not yet followed by a disconnect or the end of an async context, the device then holds exactly one open connection, every other accepted connection was seen as end-of-stream); per run every sequence of length <= 3 for both API "
          "classes against a fake device observing the flag, open connections and EOFs.", "5 C18", "partial: GC of abandoned sockets and peer resets are outside the model"),
  "C19": ("proof", "Theorems by exhaustive computation over tables regenerated from the sources on every run (types, categories, class "
          "acceptance obtained by calling the real constructors, port tables).", "5 C19", ""),
